@@ -316,6 +316,8 @@ type c03Step struct {
 	// ReadFault (restart only): the first read of a stored sampling result by the new instance fails
 	// once with an I/O error (a transient datastore fault)
 	ReadFault bool `json:"read_fault,omitempty"`
+	// NewN (restart / crash): the new instance is configured with this sample count (0 = unchanged)
+	NewN int `json:"new_sample_count,omitempty"`
 }
 
 type c03Hist struct {
@@ -448,6 +450,12 @@ func c03GenHist(r *vkit.RNG, id int, probe bool) *c03Hist {
 			h.Steps[i].ReadFault = true
 		}
 	}
+	rn := r.Split("sample-count")
+	for i := range h.Steps {
+		if k := h.Steps[i].Kind; (k == "restart" || k == "crash") && rn.Chance(1, 4) {
+			h.Steps[i].NewN = vkit.Pick(rn, []int{1, 4, 16, 32, 64})
+		}
+	}
 	// after a restart there is always another call, so that the restart is observable
 	if k := h.Steps[len(h.Steps)-1].Kind; k == "restart" || k == "crash" {
 		h.Steps = append(h.Steps, c03Step{Kind: "call", Calls: []c03CallSpec{{H: r.Intn(nH)}}})
@@ -492,6 +500,7 @@ type c03Exec struct {
 	inst  *light.ShareAvailability
 	roots []*c03Root
 	dead  bool
+	curN  int
 }
 
 // c03FaultDS fails the next `armed` reads of stored sampling results with an I/O error.
@@ -521,7 +530,10 @@ func (d *c03FaultDS) Get(ctx context.Context, key datastore.Key) ([]byte, error)
 }
 
 func (e *c03Exec) newInst() {
-	e.inst = light.NewShareAvailability(e.rec, e.base, nil, light.WithSampleAmount(uint(e.h.N)))
+	if e.curN == 0 {
+		e.curN = e.h.N
+	}
+	e.inst = light.NewShareAvailability(e.rec, e.base, nil, light.WithSampleAmount(uint(e.curN)))
 }
 
 func c03HeaderTime(kind string, now time.Time) time.Time {
@@ -591,15 +603,27 @@ func (c *c03) runHistory(h *c03Hist, pool *c03Pool) {
 				e.dead = true
 				break
 			}
-			mon.restart("graceful-restart")
+			if st.NewN == e.curN {
+				st.NewN = 0
+			}
+			mon.restart("graceful-restart", st.NewN)
 			mon.checkPersisted(e.base.Batching)
+			if st.NewN > 0 {
+				e.curN = st.NewN
+			}
 			e.newInst()
 			if st.ReadFault {
 				e.base.armed.Store(1)
 				mon.note("-- next read of a stored sampling result fails once (injected datastore fault) --")
 			}
 		case "crash":
-			mon.restart("crash-restart")
+			if st.NewN == e.curN {
+				st.NewN = 0
+			}
+			mon.restart("crash-restart", st.NewN)
+			if st.NewN > 0 {
+				e.curN = st.NewN
+			}
 			e.newInst()
 		}
 	}
